@@ -1,10 +1,11 @@
 (* Main.v -- dispatch of one protocol line to the stream runners *)
-From RW Require Import Base.Bytes Run.Wire Run.RunCodec Run.RunSeg.
+From RW Require Import Base.Bytes Run.Wire Run.RunCodec Run.RunSeg Run.RunRdm.
 Open Scope N_scope.
 
 Definition k_enc : str := [101; 110; 99].   (* "enc" *)
 Definition k_dec : str := [100; 101; 99].   (* "dec" *)
 Definition k_seg : str := [115; 101; 103].   (* "seg" *)
+Definition k_rdm : str := [114; 100; 109].   (* "rdm" *)
 
 Definition run_line (line : str) : str :=
   match tokens line with
@@ -12,6 +13,7 @@ Definition run_line (line : str) : str :=
       if str_eqb cmd k_enc then run_enc args
       else if str_eqb cmd k_dec then run_dec args
       else if str_eqb cmd k_seg then run_seg args
+      else if str_eqb cmd k_rdm then run_rdm args
       else s_bad
   | [] => s_bad
   end.
